@@ -28,6 +28,8 @@ namespace Hv.Beacon
 /-- treasure content types (`treasure.ContentType…`), as far as the indexes distinguish them -/
 inductive CT where
   | void | i8 | i16 | i32 | i64 | u8 | u16 | u32 | u64 | f32 | f64 | str | bool
+  /-- a byte array holding a msgpack body (the only content `PatchTreasures` / `PatchExpired` touch); no value index -/
+  | bytes
   deriving DecidableEq, Repr, Inhabited
 
 /-- One treasure.  `val` is the rank of the content inside its type (the order of two contents of
@@ -176,6 +178,15 @@ structure Cfg where
   flagsSticky : Bool
   /-- `SetContentVoid` replaces typed content by void (false: it left typed content alone) -/
   setVoidClearsTyped : Bool
+  /-- `buildBeacon` publishes `initialized` only after the slice is filled and sorted, under a
+      build lock (false: the flag is raised first, so a concurrent first reader can see it early) -/
+  initialisedAfterFill : Bool
+  /-- the expiration branch of `SaveFunction` re-adds the record only `if t.GetExpirationTime() != 0`
+      (false: a record whose expiry was cleared is filed again, under key 0) -/
+  refileGuardExpire : Bool
+  /-- `PatchExpired` hands every selected treasure to `ReindexExpiration` (false: only those it did not
+      patch, trusting `SaveFunction` to have re-filed the patched ones) -/
+  patchExpiredReindexesAll : Bool
   deriving DecidableEq, Repr
 
 def test (c : Cmp) (x bound : Int) : Bool :=
@@ -350,10 +361,16 @@ def sameAttr (ps : Slot) (a b : Rec) : Bool :=
   | .expire => a.expire == b.expire
   | .value _ => a.ct == b.ct && a.val == b.val
 
-/-- `addTo…Beacon(r)` behind its guard -/
-def Pair.insert (cfg : Cfg) (ps : Slot) (r : Rec) (p : Pair) : Pair :=
+/-- the guard in front of the re-add of a re-filing block of `SaveFunction` -/
+def refileGuard (cfg : Cfg) (ps : Slot) (r : Rec) : Bool :=
+  match ps with
+  | .expire => !cfg.refileGuardExpire || r.expire != 0
+  | _ => addGuard cfg ps r
+
+/-- `addTo…Beacon(r)` behind a guard that evaluated to `g` -/
+def Pair.insertG (cfg : Cfg) (ps : Slot) (r : Rec) (g : Bool) (p : Pair) : Pair :=
   if !p.init then p else
-  if !addGuard cfg ps r then p else
+  if !g then p else
   if invalidates cfg ps then {} else
   let a := addTo p.asc r
   let d := addTo p.desc r
@@ -368,6 +385,10 @@ def Pair.insert (cfg : Cfg) (ps : Slot) (r : Rec) (p : Pair) : Pair :=
                causes := (if ss == ps then p.causes.filter (· == "gain") else "insert" :: p.causes) }
     else
       { p with asc := sortBy ss true a, desc := sortBy ss false d, nd := true, causes := "mixed" :: p.causes }
+
+/-- `addTo…Beacon(r)` behind the guard of `addTreasureToBeacons` -/
+def Pair.insert (cfg : Cfg) (ps : Slot) (r : Rec) (p : Pair) : Pair :=
+  p.insertG cfg ps r (addGuard cfg ps r)
 
 /-- `deleteTreasureIfBeaconInitialized` on both beacons of the pair -/
 def Pair.erase (k : String) (p : Pair) : Pair :=
@@ -390,7 +411,7 @@ def Pair.update (cfg : Cfg) (ps : Slot) (old new : Rec) (p : Pair) : Pair :=
     let p1 := p.erase new.key
     if new.ct != .void then p1.insert cfg ps new else p1
   else if refreshes cfg ps new then
-    (p.erase new.key).insert cfg ps new
+    (p.erase new.key).insertG cfg ps new (refileGuard cfg ps new)
   else
     -- nothing: the beacon keeps its pointer to the mutated object
     let moved := !sameAttr ps old new
@@ -430,6 +451,8 @@ structure SetReq where
   created : Int   -- 0: field absent (`isValidTimestamp` false)
   updated : Int
   expire : Int
+  /-- `PatchMeta.ClearExpiredAt` (a Set cannot clear an expiry) -/
+  clearExpire : Bool := false
   deriving DecidableEq, Repr, Inhabited
 
 /-- `keyValuesToTreasure` applied to the existing object (or to a fresh one) -/
@@ -437,7 +460,8 @@ def mergeRec (cfg : Cfg) (old : Option Rec) (rq : SetReq) : Rec :=
   match old with
   | none =>
     { key := rq.key, ct := rq.ct, val := (if rq.ct == .void then 0 else rq.val),
-      created := rq.created, updated := rq.updated, expire := rq.expire, expFlag := rq.expire != 0, contFlag := true }
+      created := rq.created, updated := rq.updated, expire := (if rq.clearExpire then 0 else rq.expire),
+      expFlag := rq.expire != 0 || rq.clearExpire, contFlag := true }
   | some o =>
     -- `SetContentVoid` on an object that already has non-void content: replaces it, or (older code)
     -- leaves the content alone
@@ -447,8 +471,8 @@ def mergeRec (cfg : Cfg) (old : Option Rec) (rq : SetReq) : Rec :=
       val := if keep then o.val else (if rq.ct == .void then 0 else rq.val),
       created := if rq.created != 0 then rq.created else o.created,
       updated := if rq.updated != 0 then rq.updated else o.updated,
-      expire := if rq.expire != 0 then rq.expire else o.expire,
-      expFlag := (cfg.flagsSticky && o.expFlag) || rq.expire != 0,
+      expire := if rq.clearExpire then 0 else if rq.expire != 0 then rq.expire else o.expire,
+      expFlag := (cfg.flagsSticky && o.expFlag) || rq.expire != 0 || rq.clearExpire,
       -- the setters raise `contentChanged` only when the value really differs
       contFlag := (cfg.flagsSticky && o.contFlag) ||
         (!keep && (rq.ct != o.ct || (if rq.ct == .void then 0 else rq.val) != o.val)) }
@@ -462,6 +486,13 @@ structure Query where
   toT : Option Int
   deriving DecidableEq, Repr, Inhabited
 
+/-- what the `PatchMeta` of a patch request does to the expiry -/
+inductive ExpMeta where
+  | keep
+  | setTo (e : Int)
+  | clear
+  deriving DecidableEq, Repr, Inhabited
+
 inductive Op where
   | set (rq : SetReq)
   | del (k : String)
@@ -473,6 +504,14 @@ inductive Op where
   /-- `ShiftExpiredTreasures` with no bound: every record of the expiration index (all timestamps
       of the runs lie in the past) is returned in index order and deleted -/
   | shiftExpired
+  /-- `PatchTreasures` of one key (no `CreateIfNotExist`) with one body op that changes the body, and
+      a `PatchMeta` that sets / clears / leaves the expiry -/
+  | patch (k : String) (m : ExpMeta)
+  /-- `PatchExpiredTreasures`, `HowMany = 0` (all expired), the same kind of op and meta -/
+  | patchExpired (m : ExpMeta)
+  /-- `ShiftMatchingTreasures` without filters: index type, order, `HowMany = q.limit` (0: all),
+      optional time window; `q.from_` is not used -/
+  | shiftMatch (q : Query)
   deriving Repr
 
 def setPair (p : Slot → Pair) (s : Slot) (v : Pair) : Slot → Pair :=
@@ -546,6 +585,92 @@ def shiftList (cfg : Cfg) (st : St) : List Rec :=
 def stepShiftExpired (cfg : Cfg) (st : St) : St :=
   ((shiftList cfg st).map (·.key)).foldl stepDel (stepBuild cfg st expireAll)
 
+/-- the Set-shaped request a successful patch of `o` amounts to: new body (a counter moved), and
+    `applyPatchMeta` on the expiry (`SetExpiredAt` zero = absent) -/
+def patchReq (o : Rec) (m : ExpMeta) : SetReq :=
+  { key := o.key, ct := .bytes, val := o.val + 1, created := 0, updated := 0,
+    expire := (match m with | .setTo e => e | _ => 0), clearExpire := m == .clear }
+
+/-- `PatchFields` on one key: only a byte-array treasure is patched (`KEY_NOT_FOUND` / `TYPE_MISMATCH`
+    change nothing); then `Save` → `SaveFunction` -/
+def stepPatch (cfg : Cfg) (st : St) (k : String) (m : ExpMeta) : St :=
+  match findKey k st.store with
+  | none => st
+  | some o => if o.ct == .bytes then stepSet cfg st (patchReq o m) else st
+
+/-- `l` plus those records of `b` whose key `l` does not hold (`beacon.Add` of each) -/
+def addAll (l b : List Rec) : List Rec :=
+  l ++ b.filter (fun r => !l.any (fun x => x.key == r.key))
+
+def dropKeys (ks : List String) (l : List Rec) : List Rec := l.filter (fun r => !ks.contains r.key)
+
+/-- the selected records leave the ascending slice and the descending beacon -/
+def hideKeys (ks : List String) (p : Pair) : Pair :=
+  { p with asc := dropKeys ks p.asc, desc := dropKeys ks p.desc }
+
+/-- `ReindexExpiration(re)` on the ascending beacon, `Add` + sort on the descending one -/
+def reindexPair (p : Pair) (re : List Rec) (all : List Rec) (reKeys : List String) : Pair :=
+  { p with asc := isort (less .expire true) (dropKeys reKeys p.asc ++ re),
+           desc := isort (less .expire false) (addAll p.desc all),
+           nd := false,
+           causes := p.causes.filter (· == "gain") }
+
+/-- will `applyPatchExpiredOne` report `PATCHED` for key `k`? -/
+def patchable (store : List Rec) (k : String) : Bool :=
+  match findKey k store with
+  | some o => o.ct == .bytes
+  | none => false
+
+/-- `PatchExpired`: build the expiration pair; `SelectExpiredForPatchWithCap` takes every expired
+    record out of the ascending slice, they are deleted from the descending beacon; each one is patched
+    and saved (`stepPatch`); `ReindexExpiration` drops the handed-over keys from the ascending slice,
+    appends those that still have an expiry and sorts; the descending beacon gets every selected record
+    with an expiry it does not hold, and is sorted. -/
+def stepPatchExpired (cfg : Cfg) (st : St) (m : ExpMeta) : St :=
+  if st.store.isEmpty then st else
+  let st1 := stepBuild cfg st expireAll
+  let keys := (shiftList cfg st).map (·.key)
+  let p1 := st1.pairs .expire
+  let st2 : St := { st1 with pairs := setPair st1.pairs .expire (hideKeys keys p1) }
+  let st3 := keys.foldl (fun s k => stepPatch cfg s k m) st2
+  let p3 := st3.pairs .expire
+  -- (a pair that an invalidating re-file dropped meanwhile is outside the exact model)
+  if !p3.init then st3 else
+  let re := keys.filter (fun k => cfg.patchExpiredReindexesAll || !patchable st.store k)
+  -- (the handed-over treasures as they are now; their order before the sort does not matter)
+  let back (ks : List String) : List Rec := st3.store.filter (fun r => ks.contains r.key && r.expire != 0)
+  { st3 with pairs := setPair st3.pairs .expire (reindexPair p3 (back re) (back keys) re) }
+
+/-- `inTimeRange` of the shift predicate: `[from, to)`, an absent bound is open -/
+def inTimeRange (x : Int) (fromT toT : Option Int) : Bool :=
+  (match fromT with | some f => decide (x ≥ f) | none => true) &&
+  (match toT with | some t => decide (x < t) | none => true)
+
+/-- what `CloneAndDeleteMatchingTreasures` returns: the first `limit` records (0: all) of the built
+    index, in its order, that lie in the window (time indexes only) -/
+def matchList (cfg : Cfg) (st : St) (q : Query) : List Rec :=
+  let p := (stepBuild cfg st q).pairs (phys cfg q.slot)
+  let l := if q.asc then p.asc else p.desc
+  let m := if q.slot.isTime then l.filter (fun r => inTimeRange (ts q.slot r) q.fromT q.toT) else l
+  if q.limit = 0 then m else m.take q.limit
+
+/-- …and deletes -/
+def stepShiftMatch (cfg : Cfg) (st : St) (q : Query) : St :=
+  ((matchList cfg st q).map (·.key)).foldl stepDel (stepBuild cfg st q)
+
+/-- Two first readers of a pair that is not built yet.  The first sits in `buildBeacon` between
+    raising `initialized` on the ASC beacon and filling it; this is what the SECOND reader is
+    answered.  With the flag published last (and a build lock) it simply gets the built index. -/
+def answerSecond (cfg : Cfg) (st : St) (q : Query) : Option (List Rec) :=
+  if st.store.isEmpty then none
+  else if (st.pairs (phys cfg q.slot)).init || cfg.initialisedAfterFill then answer cfg st q
+  else if q.asc then
+    -- ASC already carries the flag, so the second reader does not build it: it reads the empty slice
+    some (getMany cfg [] (ts q.slot) q.asc q.from_ (if q.limit = 0 then st.store.length else q.limit) none none)
+  else
+    -- DESC is not flagged yet: the second reader builds it itself, completely
+    answer cfg st q
+
 def step (cfg : Cfg) (st : St) : Op → St
   | .set rq => stepSet cfg st rq
   | .del k => stepDel st k
@@ -553,6 +678,9 @@ def step (cfg : Cfg) (st : St) : Op → St
   | .inc k d e => stepInc cfg st k d e
   | .reload => stepReload st
   | .shiftExpired => stepShiftExpired cfg st
+  | .patch k m => stepPatch cfg st k m
+  | .patchExpired m => stepPatchExpired cfg st m
+  | .shiftMatch q => stepShiftMatch cfg st q
 
 def run (cfg : Cfg) (h : List Op) : St := h.foldl (step cfg) St.init
 
